@@ -110,7 +110,8 @@ mod verif_kani {
 
     // MEASURED, out of reach: sequences (serialize_seq / process / close_table) and map entries
     // (complete_table_entry) -- even the enumerated shapes [null, b] and {ab = true} do not finish
-    // in 240 s (Vec<SerializeOperation> of enums holding Vec<TableEntry>).  Not covered.
+    // in 240 s (Vec<SerializeOperation> of enums holding Vec<TableEntry>); calling begin_table / process /
+    // close_table directly on three constants: > 400 s as well.  Not covered.
 
     //@harness props=C14 kind=mustfail fns=Serializer::serialize_i64
     //@ desc="vacuity witness: the false claim `every serialized integer is non-negative` must be refuted"
